@@ -217,6 +217,9 @@ class ClientRunner:
       return {'k': 'study', 'owner': r.owner_id, 'sid': r.study_id}
     if op == 'suggest':
       self.dep.script.alg = s['alg']
+      if s.get('implicit'):
+        # the documented default worker (client_abc.StudyInterface.suggest: client_id = 'default_client_id')
+        return {'k': 'handles', 'ids': [t.id for t in study.suggest(count=s['count'])]}
       return {'k': 'handles', 'ids': [t.id for t in study.suggest(count=s['count'], client_id=s['worker'])]}
     if op == 'get_suggestions':
       self.dep.script.alg = s['alg']
@@ -423,6 +426,12 @@ class Gen:
       return {'c': op, 'sid': r.choice(['s', 's', 'missing'])}
     if op == 'suggest':
       cnt = r.choice([1, 1, 2, 2, 3])
+      x = r.random()
+      if x < 0.15:
+        # no client_id given: the interface's default worker; and the same worker spelled out
+        return {'c': op, 'count': cnt, 'worker': 'default_client_id', 'implicit': True, 'alg': self.alg(cnt, by_state)}
+      if x < 0.22:
+        return {'c': op, 'count': cnt, 'worker': 'default_client_id', 'alg': self.alg(cnt, by_state)}
       return {'c': op, 'count': cnt, 'worker': r.choice(WORKERS), 'alg': self.alg(cnt, by_state)}
     if op == 'get_suggestions':
       cnt = r.choice([1, 2])
